@@ -942,6 +942,60 @@ def fam_filtered_contract(ctx):
     return f
 
 
+def fam_blockwisedep(ctx):
+    """T2: Partitions._simplify_down on a Blockwise frame with per-partition arguments looked up by position
+    (BlockwiseDep operands of ResampleAggregation): every such operand of the rebuilt node = model `selectArgs`
+    of the original list; the Expr operand is wrapped in Partitions(·, P).  (D113)"""
+    from dask_expr._expr import Partitions
+    from dask_expr._resample import BlockwiseDep, ResampleAggregation
+    import dask_expr as dx
+
+    f = Family("rule_output[Partitions._simplify_down: BlockwiseDep operands of ResampleAggregation]")
+    reqs, code, inputs = [], [], []
+    for n, rule in ((3, "6h"), (4, "3h"), (5, "12h")):
+        pdf = pd.DataFrame({"a": np.arange(24 * n)}, index=pd.date_range("2000-01-01", periods=24 * n, freq="h"))
+        agg = dx.from_pandas(pdf, npartitions=n).a.resample(rule).sum().expr.lower_completely()
+        cands = [e for e in agg.walk() if isinstance(e, ResampleAggregation)]
+        if not cands:
+            f.disagreements.append({"input": {"n": n}, "code": "no ResampleAggregation in the lowered plan", "model": "-"})
+            continue
+        e = cands[0]
+        m = e.npartitions
+        for P in _index_sets(m, 2)[1:] + [[m - 1, 0, m - 1], [m]]:
+            try:
+                r = Partitions(e, P)._simplify_down()
+            except Exception as ex:  # noqa: BLE001
+                r = ex
+            for k, op in enumerate(e.operands):
+                if not isinstance(op, BlockwiseDep):
+                    continue
+                vals = list(op.iterable)
+                codes = {}
+                for v in vals:
+                    codes.setdefault(repr(v), len(codes))
+                if isinstance(r, Exception):
+                    txt = _err(r)
+                elif type(r) is not type(e) or not isinstance(r.operands[k], BlockwiseDep):
+                    txt = f"?{type(r).__name__}"
+                else:
+                    try:
+                        txt = _nat([codes[repr(v)] for v in r.operands[k].iterable])
+                    except KeyError:
+                        txt = "?value-not-in-original"
+                reqs.append(f"pt selargs args={_nat([codes[repr(v)] for v in vals])} P={_nat(P)}")
+                code.append(txt)
+                inputs.append({"n": n, "rule": rule, "operand": k, "P": P})
+            if not isinstance(r, Exception) and type(r) is type(e):
+                fr = r.operands[0]
+                ok = isinstance(fr, Partitions) and fr.frame._name == e.operands[0]._name and list(fr.operand("partitions")) == list(P)
+                reqs.append(f"pt push ndim={e.ndim} any=0 ops=e:{e.operands[0].npartitions}:{e.operands[0].ndim}")
+                code.append("1" if ok else "0")
+                inputs.append({"n": n, "rule": rule, "operand": "frame", "P": P})
+    model = drive(reqs)
+    f.compare(inputs, code, model)
+    return f
+
+
 def fam_compose(ctx):
     """T2: Partitions._simplify_down on a PartitionsFiltered frame (composition of selections)."""
     from dask_expr._expr import Partitions
@@ -1594,7 +1648,7 @@ def fam_sort_rules(ctx):
 
 def families(ctx):
     return [fam_seldiv, fam_partitions_layer, fam_filtered_contract, fam_compose, fam_fromarray, fam_frompandas,
-            fam_head_lower, fam_head_divisions, fam_push_rules, fam_push_guard, fam_bjoin_keys, fam_helpers, fam_sort_rules,
+            fam_head_lower, fam_head_divisions, fam_push_rules, fam_push_guard, fam_blockwisedep, fam_bjoin_keys, fam_helpers, fam_sort_rules,
             _c12_graphs, _c06_pq_lengths]
 
 
